@@ -213,6 +213,10 @@ func (P *curvePoint) UnmarshalBinary(buf []byte) error {
 
 	P.x = new(big.Int).SetBytes(buf[1 : 1+byteLen])
 	P.y = new(big.Int).SetBytes(buf[1+byteLen : 1+2*byteLen])
+	if !P.Valid() {
+		// crypto/elliptic panics on points that are not on the curve
+		return errors.New("invalid point: not on the curve")
+	}
 	return nil
 }
 
